@@ -734,3 +734,7 @@ mod tests {
         assert_eq!(stats.peers_tracked, 1);
     }
 }
+
+#[cfg(kani)]
+#[path = "/verif/kani/monotonic_counter_proofs.rs"]
+mod verif_proofs;
